@@ -43,6 +43,9 @@ SEEDS = {
     # global services), later kept alive only by its parent's reports
     "running-own-atomic-heartbeat": [("poll", "c1"), ("start", 0), ("own_hb", "c1")],
     "two-held": [("poll", "c1"), ("poll", "r2"), ("start", 0)],
+    # one live runner holds both: one RUNNING, one still PENDING (busy runner): recovering the aged PENDING one must
+    # not make the RUNNING one look abandoned
+    "one-runner-holds-both": [("poll", "c1"), ("poll", "c1"), ("start", 0), ("hb", "c1")],
 }
 
 
